@@ -46,6 +46,7 @@ type c16run struct {
 	blocks map[string]*lpb.InternalBlock
 
 	vc       *c16VC             // xpoa run with on-chain validator changes (nil: none)
+	up       *c16UpRun          // run with an on-chain consensus upgrade (nil: none)
 	extraTxs []*lpb.Transaction // transactions the next candidate carries besides its award
 }
 
@@ -72,6 +73,8 @@ type c16Cand struct {
 	Adm    []c16Epoch // validator lists that may govern the block's height (one: unambiguous)
 	EntAll []string   // the producer the reference rotation entitles at Ts under each of them
 	Edit   bool       // the block carries an editValidates transaction
+	// run with a consensus upgrade
+	OldRule bool // a block of the superseded producer, perfectly valid under the superseded rule
 }
 
 func (r *c16run) viol(clause, format string, a ...interface{}) *Violation {
@@ -99,6 +102,8 @@ func ExecC16(p *C16Plan, rc *RunCtx) *Violation {
 		r.kind = p.Mode[4:]
 		r.boot(true)
 		return r.execAcc()
+	case "acc-upgrade":
+		return r.execUpgrade()
 	}
 	panic("c16: unknown mode " + p.Mode)
 }
@@ -536,7 +541,7 @@ func (r *c16run) buildCand(st *C16Step, cursor *int64) *c16Cand {
 			panic("c16: plugin is not pow")
 		}
 		c.Prescribed, c.PreErr = bits, err != nil
-		if err == nil {
+		if err == nil && (r.up == nil || r.up.refCovers(c.TrueHeight, int64(r.p.Pow.Gap))) {
 			c.RefViol = r.refRetarget(parent, c.TrueHeight, bits)
 		}
 		c.ByClaimed, _, _ = pow.XsimRefresh(r.bplg, parent.Blockid, c.Claimed)
@@ -599,7 +604,7 @@ func (r *c16run) buildCand(st *C16Step, cursor *int64) *c16Cand {
 			r.rc.St.Faults["byz-wrong-producer"]++
 		}
 	}
-	if r.kind == "single" && c.Proposer != Accts[0] {
+	if r.kind == "single" && c.Proposer != r.singleMiner() {
 		r.rc.St.Faults["byz-wrong-producer"]++
 	}
 	if c.Signer != c.Proposer || c.SigDamaged {
@@ -853,6 +858,9 @@ func (r *c16run) deliver(c *c16Cand, st *C16Step, held int, cursor *int64) *Viol
 	if r.vc != nil {
 		r.vc.lastErr = fmt.Sprint(err)
 	}
+	if r.up != nil {
+		r.up.lastErr = fmt.Sprint(err)
+	}
 	if v := r.judgeAll(); v != nil {
 		return v
 	}
@@ -890,6 +898,14 @@ func (r *c16run) procBlock(blk *lpb.InternalBlock) (err error, pan string) {
 	return r.r.Chain.ProcBlock(r.r.BaseCtx(), CloneBlock(blk)), ""
 }
 
+// singleMiner is the miner the `single` configuration in force names.
+func (r *c16run) singleMiner() *Acct {
+	if r.up != nil && r.up.miner != nil {
+		return r.up.miner
+	}
+	return Accts[0]
+}
+
 // judgeAll applies the acceptance oracle to every candidate the receiver has stored meanwhile.
 func (r *c16run) judgeAll() *Violation {
 	for _, k := range r.order {
@@ -903,7 +919,13 @@ func (r *c16run) judgeAll() *Violation {
 		c.Judged = true
 		r.rc.St.Probes["acc-accepted"]++
 		if v := r.judge(c); v != nil {
+			if r.up != nil {
+				return r.upRelabel(c, v)
+			}
 			return v
+		}
+		if r.up != nil {
+			r.upAccepted(c)
 		}
 	}
 	// bookkeeping of refusals (delivered candidates are never delivered again)
@@ -923,6 +945,11 @@ func (r *c16run) judgeAll() *Violation {
 				return v
 			}
 		}
+		if r.up != nil {
+			if v := r.upRefused(c); v != nil {
+				return v
+			}
+		}
 	}
 	return nil
 }
@@ -934,7 +961,7 @@ func (r *c16run) honest(c *c16Cand) bool {
 	}
 	switch r.kind {
 	case "single":
-		return c.Proposer == Accts[0]
+		return c.Proposer == r.singleMiner()
 	case "pow":
 		return c.Bits == c.Prescribed && c.Ts >= c.ParentTs
 	}
@@ -975,8 +1002,8 @@ func (r *c16run) judge(c *c16Cand) *Violation {
 		}
 		r.rc.St.Probes["acc-entitled-accepted"]++
 	case "single":
-		if c.Proposer != Accts[0] {
-			return r.viol("single-accepted-wrong-miner", "%s accepted, configured miner is %s", desc, shortAddr(Accts[0].Addr))
+		if c.Proposer != r.singleMiner() {
+			return r.viol("single-accepted-wrong-miner", "%s accepted, configured miner is %s", desc, shortAddr(r.singleMiner().Addr))
 		}
 		if !r.sigOK(c, blk) {
 			return r.viol("single-accepted-bad-signature", "%s accepted although the configured miner's key did not sign it", desc)
